@@ -138,7 +138,9 @@ func r121(c *Ctx, rule string) {
 		return ok && calleeName(call.Common()) == "(*os.File).Name" && call.Call.Args[0] == file
 	}
 	c.ob(rule, "rename/source-is-the-temp-file", ren.Pos(), isNameOfFile(ren.Call.Args[0]), true, "")
-	// ordered, each on the nil-error branch of the previous
+	// ordered, each on the nil-error branch of the previous.  "Step X was done and succeeded" is decided by facts, not
+	// by dominance: the error of X must be known nil where the rename happens (this also holds when the steps live in
+	// an inlined helper whose result is tested once, or when several failures share one clean-up branch).
 	step := func(name string, pred func(cc *ssa.CallCommon) bool) *ssa.Call {
 		var found *ssa.Call
 		for _, cs := range callsIn(fn) {
@@ -146,8 +148,10 @@ func r121(c *Ctx, rule string) {
 			if !ok || !pred(call.Common()) {
 				continue
 			}
-			if dominates(call, ren) {
-				found = call
+			if e := errResultOf(call); e != nil {
+				if isNil, _ := nilKnowledge(ren, sameAs(e)); isNil {
+					found = call
+				}
 			}
 		}
 		return found
@@ -161,27 +165,28 @@ func r121(c *Ctx, rule string) {
 		if !ok || calleeName(ne.Common()) != "encoding/json.NewEncoder" {
 			return false
 		}
-		return stripConv(ne.Call.Args[0]) == file
+		return resolve(stripConv(ne.Call.Args[0])) == resolve(file)
 	})
-	syn := step("Sync", func(cc *ssa.CallCommon) bool { return calleeName(cc) == "(*os.File).Sync" && cc.Args[0] == file })
-	cls := step("Close", func(cc *ssa.CallCommon) bool { return calleeName(cc) == "(*os.File).Close" && cc.Args[0] == file })
+	syn := step("Sync", func(cc *ssa.CallCommon) bool { return calleeName(cc) == "(*os.File).Sync" && resolve(cc.Args[0]) == resolve(file) })
+	cls := step("Close", func(cc *ssa.CallCommon) bool { return calleeName(cc) == "(*os.File).Close" && resolve(cc.Args[0]) == resolve(file) })
 	steps := []struct {
 		name string
 		call *ssa.Call
 	}{{"create", ct}, {"encode", enc}, {"sync", syn}, {"close", cls}}
 	var prev *ssa.Call
 	for _, s := range steps {
-		if !c.ob(rule, "before-rename/"+s.name+"-dominates-rename", ren.Pos(), s.call != nil, true, "on every path to the rename the temporary file must have been: created, fully encoded, synced, closed") {
+		if s.name == "create" {
+			isNil, _ := nilKnowledge(ren, sameAs(errResultOf(ct)))
+			c.ob(rule, "before-rename/create-succeeded", ct.Pos(), isNil, true, "the rename must be reachable only when the temporary file was created")
+			prev = ct
 			continue
 		}
-		e := errResultOf(s.call)
-		isNil := false
-		if e != nil {
-			isNil, _ = nilKnowledge(ren, sameAs(e))
+		if !c.ob(rule, "before-rename/"+s.name+"-succeeded", ren.Pos(), s.call != nil, true, "the rename must be reachable only when the temporary file has been "+s.name+"d successfully: the error of that step must be known nil at the rename (a failed "+s.name+" must not publish)") {
+			continue
 		}
-		c.ob(rule, "before-rename/"+s.name+"-succeeded", s.call.Pos(), isNil, true, "the rename must be reachable only on the nil-error branch of "+s.name+" (a failed "+s.name+" must not publish)")
 		if prev != nil {
-			c.ob(rule, "before-rename/order "+prev.Call.StaticCallee().Name()+" < "+s.call.Call.StaticCallee().Name(), s.call.Pos(), dominates(prev, s.call), true, "")
+			pn, _ := nilKnowledge(s.call, sameAs(errResultOf(prev)))
+			c.ob(rule, "before-rename/order "+prev.Call.StaticCallee().Name()+" < "+s.call.Call.StaticCallee().Name(), s.call.Pos(), pn, true, "each step runs only after the previous one succeeded")
 		}
 		prev = s.call
 	}
@@ -189,7 +194,7 @@ func r121(c *Ctx, rule string) {
 	if enc != nil {
 		okArg := false
 		for _, p := range fn.Params {
-			if stripConv(enc.Call.Args[1]) == ssa.Value(p) {
+			if resolve(stripConv(enc.Call.Args[1])) == ssa.Value(p) {
 				okArg = true
 			}
 		}
@@ -206,30 +211,21 @@ func r121(c *Ctx, rule string) {
 			continue
 		}
 		// the creation-failed return itself has nothing to remove
-		if lastRet(ret) == errResultOf(ct) {
+		if _, createFailed := nilKnowledge(ret, sameAs(errResultOf(ct))); createFailed {
 			continue
 		}
 		nFail++
-		removed := false
-		for _, b := range fn.Blocks {
-			for _, in := range b.Instrs {
-				if isRemoveTemp(in) && dominates(in, ret) {
-					removed = true
-				}
-			}
-		}
-		c.ob(rule, "failure-exit-removes-temp-file", ret.Pos(), removed, true, "a failed snapshot must not leave its temporary file behind")
-		_, toRename := reach(fn, nil, func(in ssa.Instruction) bool { return in == ssa.Instruction(ret) }, func(in ssa.Instruction) bool { return in == ssa.Instruction(ren) })
-		_ = toRename
+		_, skips := reach(fn, ct, func(in ssa.Instruction) bool { return in == ssa.Instruction(ret) }, isRemoveTemp)
+		c.ob(rule, "failure-exit-removes-temp-file", ret.Pos(), !skips, true, "a failed snapshot must not leave its temporary file behind")
 	}
-	c.ob(rule, "has-failure-exits", fn.Pos(), nFail >= 3, false, "encode, sync, close and rename failures")
+	c.ob(rule, "has-failure-exits", fn.Pos(), nFail >= 1, false, "")
 	// success is reported only after the rename succeeded
 	for _, ret := range normalReturns(fn) {
 		if !isNilConst(lastRet(ret)) {
 			continue
 		}
 		isNil, _ := nilKnowledge(ret, sameAs(errResultOf(ren)))
-		c.ob(rule, "success-only-after-rename", ret.Pos(), isNil && dominates(ren, ret), true, "")
+		c.ob(rule, "success-only-after-rename", ret.Pos(), isNil, true, "the error of os.Rename must be known nil at every successful return")
 	}
 }
 
